@@ -103,6 +103,26 @@ pub fn seeds(name: &str) -> &'static [&'static [u8]] {
         "sig.sign" => &[SIGNED, SIGNED_EVENT, br#"{"a":1,"signatures":{"other":{"ed25519:9":"x"}},"unsigned":{}}"#],
         "sig.der" => &[DER_V1, DER_RING],
         "sig.verify_bytes" => &[b"\x20aaaaaaaaaaaaaaaaaaaaaaaaaaaaaaaabbbbbbbbbbbbbbbbbbbbbbbbbbbbbbbbbbbbbbbbbbbbbbbbbbbbbbbbbbbbbbbb{}"],
+        "sig.keynew" => &[
+            b"aaaaaaaaaaaaaaaaaaaaaaaaaaaaaaaa",
+            b"\x04\x20aaaaaaaaaaaaaaaaaaaaaaaaaaaaaaaa",
+            b"\x04\x20aaaaaaaaaaaaaaaaaaaaaaaaaaaaaaa",
+            b"\x04\x20aaaaaaaaaaaaaaaaaaaaaaaaaaaaaaaab",
+            b"\x04\x20aaaaaaaaaaaaaaaaaaaaaaaaaaaaaaaaaaaaaaaaaaaaaaaaaaaaaaaaaaaaaaaaaa",
+            b"\x04\x20",
+            b"",
+        ],
+        "push.edit" => &[
+            br#"{"kind":"override","id":"b","after":"a","before":null,"pre":["a","b","c"],"default":true}"#,
+            br#"{"kind":"override","id":"a","after":"zz","before":null,"pre":["a","b"],"default":true}"#,
+            br#"{"kind":"underride","id":"a","after":null,"before":"zz","pre":["a","b","c"],"default":false}"#,
+            br#"{"kind":"content","id":"b","after":"b","before":null,"pre":["a","b"],"default":true}"#,
+            br#"{"kind":"override","id":"c","after":"b","before":"a","pre":["a","b","c"],"default":false}"#,
+            br#"{"kind":"override","id":"a","after":".m.rule.master","before":null,"pre":["a"],"default":true}"#,
+            br#"{"kind":"room","id":"!r:h","after":"!q:h","before":null,"pre":["!r:h"],"default":true}"#,
+            br#"{"kind":"sender","id":"@a:h","after":null,"before":"@zz:h","pre":["@a:h","@b:h"],"default":false}"#,
+            br#"{"kind":"underride","id":"new","after":"a","before":"c","pre":["a","b","c","d"],"default":true}"#,
+        ],
         "html.strict" | "html.compat" | "html.parse" => &[HTML1, HTML2, HTML3],
         other => panic!("no seeds for {other}"),
     }
